@@ -11,7 +11,7 @@ def engine_m(prop, tier):
     sys.path.insert(0, VERIF)
     from mirsym.mir import dump_mir, Program
     t0 = time.time()
-    path, key = dump_mir()
+    path, key = dump_mir(repo=os.environ.get("RV_REPO", "/repo"), scratch=os.path.join(os.environ.get("RV_SCRATCH", "/var/tmp/rvh"), "mir"))
     prog = Program(path)
     obs, models, extra = [], [], {}
     if prop == "C08":
